@@ -9,7 +9,7 @@ CFG = dict(
                "inside any write after any byte leaves the complete old or complete new contents (the recogniser is evaluated on the calls the code "
                "really issues, recovered by strace each run); edits_serializable: every schedule of mutex-guarded read-modify-write requests equals "
                "a sequential order. Table facts re-proved by vm_compute on configFields regenerated from /repo each run. Model tied to the code by "
-               "~1.1k differential cases per quick run plus kill/fault injection at every system call of 5 saves and 40 concurrent request mixes.",
+               "~1.1k differential cases per quick run plus kill/fault injection at every system call of 5 saves and 40 concurrent request mixes. End-to-end layer: pprof is started through driver.PProf with option flags and -http; saves/deletes go to the registered handlers with url-encoded names, the menu is parsed back from served HTML; the flag glue is modelled (M_Flags) and save_keeps_options_in_force is proved.",
     level_note="Known findings F25 (invalid UTF-8 is coerced by json.Marshal) and F26 (tagroot/tagleaf are saved but have no URL parameter) are "
                "stated as _refuted theorems with witnesses. Trusted: Coq kernel + vm_compute, translator gen-configtable, harness + strace hook, "
                "encoding/json and net/url (abstracted: JSON keeps saved fields, query Encode/Query round-trips), strconv.ParseFloat/fmt.Sprint on "
@@ -29,6 +29,9 @@ CFG = dict(
          "with each system call of its writeSettings part failed by strace in turn, then menu/save/delete/save. "
          "(f') read faults: save?/delete?/menu? requests run while settings.json cannot be read (mode 000 in a writable directory; as root the "
          "process's file-system uid is switched to nobody for the request) and, in fs-edits, with EACCES/EPERM/EIO injected at the open/read; "
+         "(h) END-TO-END: pprof started through driver.PProf with option flags and -http; /saveconfig, /deleteconfig and the Config menu read back "
+         "from served HTML; deterministic in every quick run: names changing under URL decoding stored with their decoded twins, saving over the "
+         "entry the menu marks current while flags shape the view, a refused command line; random: 30 histories of flags x names x requests; "
          "(g) burst: the FIRST edits a never-edited settings file sees arrive simultaneously (spin barrier, 3-8 requests with distinct names, "
          "half through the HTTP handlers); the final file is compared up to order with the sequential result. "
          "distinct = sha256 of the input term; non-trivial = URL changed (url), non-empty query (apply), at least one successful edit (seq), always (conc, fs)",
